@@ -136,6 +136,12 @@ pub fn gen(rng: &mut Rng, n: usize, out: &mut Vec<String>) {
             if out.len() >= n {
                 break;
             }
+            if rng.chance(1, 7) {
+                if let Some(l) = bkr_case(&s, rng, stranger, risk_admin) {
+                    out.push(l);
+                }
+                continue;
+            }
             let act = s.gen_act(rng);
             let case = match act {
                 Act::Deposit { u, b, amt, upto } => Case { op: "wd.dep", u, b, amount: amt, flag: upto },
@@ -154,6 +160,144 @@ pub fn gen(rng: &mut Rng, n: usize, out: &mut Vec<String>) {
             // the scenario itself moves on along the unperturbed instruction
             let _ = s.step(&act, &mut scratch);
         }
+    }
+}
+
+/// the whole context of one instruction as the model driver reads it (see the module comment)
+fn context_line(s: &Scen, w: &World, op: &str, acct_key: &Pubkey, h: &crate::world::fixtures::BankHandle, signer: Pubkey, vault_passed: Pubkey, amount: i128, flag: bool) -> (String, Keys) {
+    let a0 = w.marginfi_account(acct_key);
+    let bank0 = w.bank(&h.bank);
+    let g0 = w.group(&s.group);
+    let mut bank_keys: Vec<Pubkey> = s.banks.iter().map(|x| x.bank).collect();
+    bank_keys.extend(a0.lending_account.balances.iter().filter(|b| b.is_active()).map(|b| b.bank_pk));
+    let mut keys = Keys::new(&bank_keys);
+    let paused = g0.panic_state_cache.is_paused_flag() && !g0.panic_state_cache.is_expired(w.clock_ts);
+    let (tf_bps, tf_max) = w.transfer_fee_in_force(&h.mint);
+    let ir = Ir::from_real(&bank0.config.interest_rate_config, &g0);
+    let risk_banks: Vec<Pubkey> = s.banks.iter().map(|x| x.bank).collect();
+    let mut parts: Vec<String> = vec![
+        op.to_string(),
+        w.clock_ts.to_string(),
+        format!(
+            "{} {} {} {} {} {} {} {}",
+            keys.any(&s.group), keys.any(&g0.admin), keys.any(&g0.risk_admin), paused as u8, bits(g0.fee_state_cache.program_fee_rate),
+            g0.deleverage_withdraw_window_cache.daily_limit, g0.deleverage_withdraw_window_cache.withdrawn_today, g0.deleverage_withdraw_window_cache.last_daily_reset_timestamp
+        ),
+        format!("{} {} {} {}", keys.any(acct_key), keys.any(&a0.group), keys.any(&a0.authority), a0.account_flags),
+        slots_line(&a0, &keys),
+        keys.any(&signer).to_string(),
+        format!("{} {} {}", keys.bank(&h.bank), keys.any(&bank0.group), keys.any(&bank0.liquidity_vault)),
+        B::from_bank(&bank0).line(),
+        bank0.last_update.to_string(),
+        ir.line(),
+        format!(
+            "{} {} {} {} {}",
+            bank0.config.operational_state as u8, bits(bank0.config.interest_rate_config.protocol_origination_fee), tf_bps, tf_max,
+            (bits(bank0.config.asset_weight_init) == 0) as u8
+        ),
+        format!("{} {}", keys.any(&vault_passed), w.token_amount(&vault_passed)),
+        risk_banks.len().to_string(),
+    ];
+    for k in &risk_banks {
+        parts.push(format!("{} {}", keys.bank(k), risk_line(w, k)));
+    }
+    parts.push(format!("{} {}", amount, flag as u8));
+    (parts.join(" "), keys)
+}
+
+/// `wd.bkr`: the REAL lending_pool_handle_bankruptcy through dispatch on a borrower whose collateral was wiped (by state edit,
+/// as a price collapse followed by liquidations would) or not, with the insurance vault holding nothing / less / exactly / more
+/// than the debt, any signer, the bank opted in to permissionless settlement or not, and the same refusal causes as above.
+///   amount field = what the insurance vault can deliver; `=> ok <16 slots x 7> <bank 16> last_update <insurance tokens> <opState> <account flags>`
+fn bkr_case(s: &Scen, rng: &mut Rng, stranger: Pubkey, risk_admin: Pubkey) -> Option<String> {
+    use marginfi_type_crate::constants::PERMISSIONLESS_BAD_DEBT_SETTLEMENT_FLAG;
+    // a (user, bank) pair with a debt — or, now and then, any pair
+    let mut cands = vec![];
+    for (ui, us) in s.users.iter().enumerate() {
+        let a = s.w.marginfi_account(&us.acct);
+        for (bi, h) in s.banks.iter().enumerate() {
+            if let Some(bal) = a.lending_account.get_balance(&h.bank) {
+                if bits(bal.liability_shares) >= ONE { cands.push((ui, bi)); }
+            }
+        }
+    }
+    let (u, b) = if !cands.is_empty() && rng.chance(9, 10) { *rng.pick(&cands) } else { (rng.below(s.users.len() as u64) as usize, rng.below(s.banks.len() as u64) as usize) };
+    let h = s.banks[b];
+    let mut w = s.w.clone();
+    let acct_key = s.users[u].acct;
+    // no transfer fee on the mint (then `available` is the vault's balance)
+    if w.transfer_fee_in_force(&h.mint) != (0, 0) { return None; }
+    // wipe the collateral (mostly): every deposit of the account shrinks to nothing / to cents
+    if rng.chance(5, 6) {
+        let mut a = w.marginfi_account(&acct_key);
+        for bal in a.lending_account.balances.iter_mut().filter(|x| x.is_active()) {
+            if bits(bal.asset_shares) > 0 {
+                bal.asset_shares = I80F48::from_bits(match rng.below(8) { 0 => rng.below(ONE as u64) as i128, 1 => rng.below(50_000) as i128 * ONE, _ => 0 }).into();
+            }
+        }
+        w.set_marginfi_account(&acct_key, &a);
+    }
+    // insurance: nothing / less / exactly / more than the debt
+    let bank0 = w.bank(&h.bank);
+    let debt_tokens: u64 = {
+        let l = w.marginfi_account(&acct_key).lending_account.get_balance(&h.bank).map(|x| bits(x.liability_shares)).unwrap_or(0);
+        ((num_bigint::BigInt::from(l) * num_bigint::BigInt::from(bits(bank0.liability_share_value))) >> 96u32).try_into().unwrap_or(u64::MAX)
+    };
+    let ins = match rng.below(6) { 0 => 0, 1 => debt_tokens / 2, 2 => debt_tokens, 3 => debt_tokens.saturating_add(1), 4 => debt_tokens.saturating_mul(3), _ => rng.below(debt_tokens.saturating_add(2)) };
+    w.set_token_amount(&h.insurance_vault, ins);
+    let mut signer = *rng.pick(&[s.admin, risk_admin, stranger, s.users[u].wallet]);
+    if rng.chance(1, 2) {
+        let mut bk = w.bank(&h.bank);
+        bk.flags |= PERMISSIONLESS_BAD_DEBT_SETTLEMENT_FLAG;
+        w.set_bank(&h.bank, &bk);
+    }
+    for _ in 0..(if rng.chance(2, 3) { 0 } else { 1 + rng.below(2) }) {
+        match rng.below(7) {
+            0 => {
+                let _ = w.exec(&ix::panic_pause(s.fee_admin));
+                let _ = w.exec(&ix::propagate_fee_state(s.group));
+            }
+            1 | 2 => {
+                let mut a = w.marginfi_account(&acct_key);
+                a.account_flags |= *rng.pick(&[ACCOUNT_DISABLED, ACCOUNT_IN_FLASHLOAN, ACCOUNT_IN_RECEIVERSHIP, ACCOUNT_FROZEN]);
+                w.set_marginfi_account(&acct_key, &a);
+            }
+            3 => {
+                let mut bk = w.bank(&h.bank);
+                bk.config.operational_state = *rng.pick(&[BankOperationalState::Paused, BankOperationalState::ReduceOnly, BankOperationalState::KilledByBankruptcy]);
+                w.set_bank(&h.bank, &bk);
+            }
+            4 => {
+                if rng.chance(1, 2) {
+                    let mut a = w.marginfi_account(&acct_key);
+                    a.group = w.new_key();
+                    w.set_marginfi_account(&acct_key, &a);
+                } else {
+                    let mut bk = w.bank(&h.bank);
+                    bk.group = w.new_key();
+                    w.set_bank(&h.bank, &bk);
+                }
+            }
+            5 => w.advance(*rng.pick(&[1i64, 3600, 86400, 31_536_000])),
+            _ => signer = stranger,
+        }
+    }
+    let ixn = ix::handle_bankruptcy(&h, signer, acct_key, w.remaining_in_slot_order(&acct_key));
+    let (head, keys) = context_line(s, &w, "wd.bkr", &acct_key, &h, signer, h.liquidity_vault, ins as i128, false);
+    let iv0 = w.token_amount(&h.insurance_vault);
+    match w.exec(&ixn) {
+        Ok(()) => {
+            let a1 = w.marginfi_account(&acct_key);
+            let bank1 = w.bank(&h.bank);
+            Some(format!(
+                "{} => ok {} {} {} {} {} {}",
+                head, slots_line(&a1, &keys), B::from_bank(&bank1).line(), bank1.last_update, iv0 - w.token_amount(&h.insurance_vault),
+                bank1.config.operational_state as u8, a1.account_flags
+            ))
+        }
+        Err(ExecErr::Custom(code)) if code >= 6000 => Some(format!("{} => err {}", head, code)),
+        Err(ExecErr::Panic) => Some(format!("{} => panic", head)),
+        Err(_) => None,
     }
 }
 
@@ -296,45 +440,7 @@ fn one_case(s: &Scen, c: &Case, rng: &mut Rng, stranger: Pubkey, risk_admin: Pub
     let _ = writes_tokens_in;
 
     // ---- the context line
-    let a0 = w.marginfi_account(&acct_key);
-    let bank0 = w.bank(&h.bank);
-    let g0 = w.group(&s.group);
-    let mut bank_keys: Vec<Pubkey> = s.banks.iter().map(|x| x.bank).collect();
-    bank_keys.extend(a0.lending_account.balances.iter().filter(|b| b.is_active()).map(|b| b.bank_pk));
-    let mut keys = Keys::new(&bank_keys);
-    let paused = g0.panic_state_cache.is_paused_flag() && !g0.panic_state_cache.is_expired(w.clock_ts);
-    let (tf_bps, tf_max) = w.transfer_fee_in_force(&h.mint);
-    let ir = Ir::from_real(&bank0.config.interest_rate_config, &g0);
-    let risk_banks: Vec<Pubkey> = s.banks.iter().map(|x| x.bank).collect();
-    let mut parts: Vec<String> = vec![
-        c.op.to_string(),
-        w.clock_ts.to_string(),
-        format!(
-            "{} {} {} {} {} {} {} {}",
-            keys.any(&s.group), keys.any(&g0.admin), keys.any(&g0.risk_admin), paused as u8, bits(g0.fee_state_cache.program_fee_rate),
-            g0.deleverage_withdraw_window_cache.daily_limit, g0.deleverage_withdraw_window_cache.withdrawn_today, g0.deleverage_withdraw_window_cache.last_daily_reset_timestamp
-        ),
-        format!("{} {} {} {}", keys.any(&acct_key), keys.any(&a0.group), keys.any(&a0.authority), a0.account_flags),
-        slots_line(&a0, &keys),
-        keys.any(&signer).to_string(),
-        format!("{} {} {}", keys.bank(&h.bank), keys.any(&bank0.group), keys.any(&bank0.liquidity_vault)),
-        B::from_bank(&bank0).line(),
-        bank0.last_update.to_string(),
-        ir.line(),
-        format!(
-            "{} {} {} {} {}",
-            bank0.config.operational_state as u8, bits(bank0.config.interest_rate_config.protocol_origination_fee), tf_bps, tf_max,
-            (bits(bank0.config.asset_weight_init) == 0) as u8
-        ),
-        format!("{} {}", keys.any(&vault_passed), w.token_amount(&vault_passed)),
-        risk_banks.len().to_string(),
-    ];
-    for k in &risk_banks {
-        parts.push(format!("{} {}", keys.bank(k), risk_line(&w, k)));
-    }
-    parts.push(format!("{} {}", c.amount, c.flag as u8));
-    let head = parts.join(" ");
-
+    let (head, keys) = context_line(s, &w, c.op, &acct_key, &h, signer, vault_passed, c.amount as i128, c.flag);
     // ---- run it
     let (vault0, user0) = (w.token_amount(&h.liquidity_vault), w.token_amount(&tok));
     let r = w.exec(&ixn);
